@@ -275,8 +275,10 @@ def static_events(case, t, k, sim, rng, want, build_opts=None, solve_opts=None, 
         kwargs["method"] = method
     if "allow_negatives" in solve_opts:
         kwargs["allow_negatives"] = solve_opts["allow_negatives"]
-    if solve_opts.get("initial_condition") is not None:
-        kwargs["initial_condition"] = list(solve_opts["initial_condition"])
+    ic = solve_opts.get("initial_condition")
+    if ic is not None:
+        nint = len(frame.internal_big_edges)
+        kwargs["initial_condition"] = [1.0] * nint if ic == "ones" else [rng.uniform(0.3, 2.0) for _ in range(nint)]
     sev = {"case": case, "ev": "SolveStress", "raised": "",
            "opts": {"method": method, "allow_neg": bool(solve_opts.get("allow_negatives", True)), "bmode": "static"}}
     import warnings
@@ -295,6 +297,77 @@ def static_events(case, t, k, sim, rng, want, build_opts=None, solve_opts=None, 
         import traceback
         sev["raised"] = type(exc).__name__ + ": " + traceback.format_exc()[-300:]
     evs.append(sev)
+    if with_pressure and not sev["raised"]:
+        evs += pressure_events(case, forsys, frame, t, o, vidx, cidx, cell_of_model, rng, resample)
+    return evs
+
+
+def project_pressure_matrix(pm, frame, cidx):
+    bel = {id(b): i + 1 for i, b in frame.big_edges.items()}
+    order = pm.mapping_order                       # cell id -> original column
+    removed = set(pm.removed_columns)
+    kept = [cid for cid, col in order.items() if col not in removed]
+    L = np.asarray(pm.lhs_matrix, dtype=float)
+    rows = []
+    for q, be in enumerate(pm.big_edges_to_use):
+        ent = []
+        for j in range(L.shape[1]):
+            if L[q, j] != 0.0:
+                ent.append([cidx.get(kept[j], 0), int(round(L[q, j])) if abs(L[q, j] - round(L[q, j])) < 1e-12 else 99])
+        turn = float(be.calculate_total_curvature(normalized=False))
+        rows.append({"i": bel.get(id(be), 0), "c": ent, "rhs": fx(pm.rhs_matrix[q]), "turn": fx(turn), "T": fx(be.tension)})
+    return {"rows": rows, "removed": [cidx.get(cid, 0) for cid, col in order.items() if col in removed]}
+
+
+def pressure_events(case, forsys, frame, t, o, vidx, cidx, cell_of_model, rng, resample):
+    evs = []
+    bev = {"case": case, "ev": "BuildPressure", "raised": "", "resampled": bool(resample)}
+    try:
+        forsys.build_pressure_matrix(when=0)
+        bev["pm"] = project_pressure_matrix(forsys.pressure_matrices[0], frame, cidx)
+    except Exception as exc:
+        import traceback
+        bev["raised"] = type(exc).__name__ + ": " + traceback.format_exc()[-300:]
+        evs.append(bev)
+        return evs
+    evs.append(bev)
+    sev = {"case": case, "ev": "SolvePressure", "raised": ""}
+    try:
+        forsys.solve_pressure(when=0, method="lagrange_pressure")
+        cells = frame.cells
+        ps = [float(c.pressure) if c.pressure is not None else float("nan") for c in cells.values()]
+        fin = all(math.isfinite(v) and abs(v) < 1900 for v in ps)
+        sev["finite"] = fin
+        sev["p"] = [fx(v) if fin else 0 for v in ps]        # in mesh cell order (dense index)
+        # analytic Young-Laplace pressures (model frame), in mesh cell order; 0/known flags
+        pa, incons = eq.pressures(t)
+        inv = {mesh_c: model_c for model_c, mesh_c in cell_of_model.items()}
+        sev["pa"] = [fx(pa.get(inv.get(i + 1, -1), 0.0)) for i in range(len(ps))]
+        sev["pa_known"] = [inv.get(i + 1, -1) in pa for i in range(len(ps))]
+        sev["pa_consistent"] = bool(incons < 1e-6)
+    except Exception as exc:
+        import traceback
+        sev["raised"] = type(exc).__name__ + ": " + traceback.format_exc()[-300:]
+        evs.append(sev)
+        return evs
+    evs.append(sev)
+    # linearity: pressures for assigned tension vectors T1, T2 and a*T1 + b*T2 on the same frame
+    try:
+        internal = list(frame.internal_big_edges)
+        T1 = [rng.uniform(0.2, 2.0) for _ in internal]
+        T2 = [rng.uniform(0.2, 2.0) for _ in internal]
+        a, b = rng.choice([2.0, 0.5, 3.0]), rng.choice([1.0, 1.5])
+        runs = []
+        for vec in (T1, T2, [a * x + b * y for x, y in zip(T1, T2)]):
+            for be, v in zip(internal, vec):
+                be.tension = v
+            forsys.build_pressure_matrix(when=0)
+            forsys.solve_pressure(when=0, method="lagrange_pressure")
+            runs.append([fx(float(c.pressure)) for c in frame.cells.values()])
+        evs.append({"case": case, "ev": "PressureLin", "raised": "", "a": fx(a), "b": fx(b), "p1": runs[0], "p2": runs[1], "p3": runs[2]})
+    except Exception as exc:
+        import traceback
+        evs.append({"case": case, "ev": "PressureLin", "raised": type(exc).__name__ + ": " + traceback.format_exc()[-300:]})
     return evs
 
 
@@ -337,6 +410,11 @@ def run_spec(args):
     rng = random.Random(spec.get("seed", 0))
     t = make_tissue(spec, rng)
     sim = make_similarity(spec, rng)
+    if spec.get("require_conditioned"):
+        for _ in range(12):
+            if tension_tolerance(t, sim) is not None:
+                break
+            t = make_tissue(spec, rng)
     ids = spec.get("ids")
     if ids:
         ids = dict(ids, shuffle=random.Random(spec.get("seed", 0) + 1) if ids.get("shuffle") else None)
@@ -344,6 +422,18 @@ def run_spec(args):
         return case, _run_spec_inner(case, spec, rng, t, sim, ids)
     except PreStepRaised as exc:
         return case, [{"case": case, "ev": "Skip", "reason": str(exc)[:300]}]
+
+
+def _group(g):
+    if not g:
+        return None
+    out = {}
+    for key in ("flips", "shifts"):
+        if g.get(key):
+            out[key] = {int(c): v for c, v in g[key].items()}
+    if g.get("cell_perm"):
+        out["cell_perm"] = list(g["cell_perm"])
+    return out
 
 
 class PreStepRaised(Exception):
@@ -354,7 +444,7 @@ def _run_spec_inner(case, spec, rng, t, sim, ids):
     evs = static_events(case, t, spec.get("k", 3), sim, rng, spec["want"], build_opts=spec.get("build"),
                         solve_opts={"skip": True} if spec.get("nosolve") else spec.get("solve"), ids=ids, resample=spec.get("resample"),
                         equilibrium=spec["tissue"]["kind"] == "equilibrium" and not spec["tissue"].get("noise"),
-                        with_pressure=spec.get("pressure", False))
+                        with_pressure=spec.get("pressure", False), group=_group(spec.get("group")))
     return evs
 
 
@@ -364,7 +454,11 @@ def run_specs(ctx, specs, module="Trace_Inference", prefixes=None):
     jobs = [(i + 1, s) for i, s in enumerate(specs)]
     results = core.parallel_map(run_spec, jobs, chunksize=2)
     verdicts = ctx.validate(module, results)
-    payloads = {i + 1: s for i, s in enumerate(specs)}
+    payloads = {i + 1: dict(s) for i, s in enumerate(specs)}
+    for cid, evs in results:
+        msgs = [f"{e['ev']}: {e['raised']}" for e in evs if e.get("raised")] + [e["reason"] for e in evs if e["ev"] == "Skip"]
+        if msgs:
+            payloads[cid]["_raised"] = msgs
     if prefixes:
         for vjs in verdicts.values():
             for vj in vjs:
